@@ -68,7 +68,15 @@ func (e *Engine) installStubs() {
 			panic(unsupported("verifHavoc: argument must be a pointer"))
 		}
 		p := iv.A[0].V.(*PtrV)
-		e.store(st, p, symValue(pt.Elem(), name), c.site)
+		heapAlloc = func(v Value) *Loc { return e.alloc(st, v) }
+		pendingAssumes = nil
+		val := symValue(pt.Elem(), name)
+		heapAlloc = nil
+		for _, a := range pendingAssumes {
+			st.assume(a)
+		}
+		pendingAssumes = nil
+		e.store(st, p, val, c.site)
 		return nil
 	}
 	S["verif:verifBytes"] = func(e *Engine, st *State, c *callInfo, a []Value) Value {
@@ -219,8 +227,12 @@ func (e *Engine) installStubs() {
 		arr, ln := e.msgArray(st, a[0].(*SliceV), c.site)
 		priv := bvFromBytes(a[1].(*ArrayV))
 		sig := UF("Sign", 512, arr, ln, priv)
-		// instance axiom: Verify(PubOf(priv), msg, Sign(msg, priv))
-		st.assume(UF("Verify", 0, UF("PubOf", 256, priv), arr, ln, sig))
+		// instance axiom: Verify(PubOf(priv), msg, Sign(msg, priv)); omitted for
+		// messages over 1024 bytes (weekly statistics), whose signatures are
+		// never verified by the code under test
+		if n, ok := ln.ConstInt(); !ok || n <= 1024 {
+			st.assume(UF("Verify", 0, UF("PubOf", 256, priv), arr, ln, sig))
+		}
 		e.noteAssumption("glow.Sign/Verify are uninterpreted functions over (message bytes, length, key); Verify(PubOf(k), m, Sign(m,k)) holds; no unforgeability assumed")
 		return bytesFromBV(sig, 64)
 	}
